@@ -12,7 +12,7 @@ use std::sync::Arc;
 
 use trustfall_core::interpreter::execution::interpret_ir;
 use trustfall_core::interpreter::{
-    Adapter, CandidateValue, verif_dynamic, AsVertex, ContextIterator, ContextOutcomeIterator, EdgeInfo, ResolveEdgeInfo, ResolveInfo, VertexInfo,
+    Adapter, CandidateValue, DynamicallyResolvedValue, verif_dynamic, AsVertex, ContextIterator, ContextOutcomeIterator, EdgeInfo, ResolveEdgeInfo, ResolveInfo, VertexInfo,
     VertexIterator,
 };
 use trustfall_core::ir::{
@@ -828,7 +828,51 @@ fn run_pruned(l: &Loaded, mode: PruneMode) -> (Answer, PruneStats) {
 
 // ---- correspondence: what the hint objects report ------------------------------------------------
 
-/// `(static (<prop> <cand>)…) (dyn <prop>…) (mand <eid>…)` of one hint object; `panic` when a hint
+/// `(<prop> <op> <(ctx <vid> <field>) | (fcount <eid>)>)`: which operation and which tag a
+/// `DynamicallyResolvedValue` carries. The fields are private; they are read off the derived `Debug`
+/// rendering (`…, field: <FieldRef>, operation: <Operation>, initial_candidate: …` are its last fields).
+fn dyn_choice_sexp(prop: &str, drv: &DynamicallyResolvedValue<'_>) -> Sexp {
+    let text = format!("{drv:?}");
+    let unknown = || Sexp::list(vec![Sexp::atom(prop), Sexp::atom("?"), Sexp::atom("?")]);
+    let Some(op_at) = text.rfind(", operation: ") else { return unknown() };
+    let Some(field_at) = text[..op_at].rfind(", field: ") else { return unknown() };
+    let field = &text[field_at + ", field: ".len()..op_at];
+    let op_text = &text[op_at + ", operation: ".len()..];
+    let op_name: String = op_text.chars().take_while(|c| c.is_ascii_alphanumeric()).collect();
+    let op = match op_name.as_str() {
+        "Equals" => "eq",
+        "NotEquals" => "neq",
+        "LessThan" => "lt",
+        "LessThanOrEqual" => "le",
+        "GreaterThan" => "gt",
+        "GreaterThanOrEqual" => "ge",
+        "OneOf" => "one_of",
+        _ => "?",
+    };
+    let num_after = |key: &str| -> Option<String> {
+        let at = field.find(key)? + key.len();
+        Some(field[at..].chars().take_while(|c| c.is_ascii_digit()).collect())
+    };
+    let fref = if field.starts_with("ContextField") {
+        let name = field.find("field_name: \"").map(|at| {
+            field[at + "field_name: \"".len()..].chars().take_while(|c| *c != '"').collect::<String>()
+        });
+        match (num_after("vertex_id: Vid("), name) {
+            (Some(v), Some(n)) => Sexp::call("ctx", vec![Sexp::atom(v), Sexp::atom(n)]),
+            _ => Sexp::atom("?"),
+        }
+    } else if field.starts_with("FoldSpecificField") {
+        match num_after("fold_eid: Eid(") {
+            Some(e) => Sexp::call("fcount", vec![Sexp::atom(e)]),
+            None => Sexp::atom("?"),
+        }
+    } else {
+        Sexp::atom("?")
+    };
+    Sexp::list(vec![Sexp::atom(prop), Sexp::atom(op), fref])
+}
+
+/// `(static (<prop> <cand>)…) (dyn (<prop> <op> <tag>)…) (mand <eid>…)` of one hint object; `panic` when a hint
 /// method panics.
 fn info_report<V: VertexInfo>(sh: &PruneShared, info: &V) -> Vec<Sexp> {
     let (mut props, edges) = sh.names_of(info);
@@ -840,8 +884,8 @@ fn info_report<V: VertexInfo>(sh: &PruneShared, info: &V) -> Vec<Sexp> {
             if let Some(c) = info.statically_required_property(p) {
                 st.push(Sexp::list(vec![Sexp::atom(p.clone()), cand_to_sexp(&c)]));
             }
-            if info.dynamically_required_property(p).is_some() {
-                dy.push(Sexp::atom(p.clone()));
+            if let Some(drv) = info.dynamically_required_property(p) {
+                dy.push(dyn_choice_sexp(p, &drv));
             }
         }
         let mut eids: Vec<u64> = vec![];
@@ -1093,6 +1137,78 @@ fn tag_cand_cases(rng: &mut Rng, n_random: usize) -> Vec<Case> {
     out
 }
 
+// ---- directed stream: two `%tag` filters on ONE property ------------------------------------------
+
+const TT_SCHEMA: &str = "(schema (types (A obj) (B obj)) (sub (A) (B)) (props (A (id (T Int 0)) (x1 (T Int 1)) (x2 (T Int 1)) (l1 (T Int 1 1)) (l2 (T Int 1 1))) (B (id (T Int 0)) (y (T Int 1)))) (edges (A (e B (T B 1 0) (params))) (B)) (roots (RA A (T A 1 0) (params))))";
+const TT_DATA: &str = "(data (vertices \
+ (0 A (id (i 0)) (x1 (i 1)) (x2 (i 3)) (l1 (l (i 1) (i 2))) (l2 (l (i 3) (i 4)))) \
+ (1 A (id (i 1)) (x1 (i 4)) (x2 (i 2)) (l1 (l (i 0) (i 4))) (l2 (l (i 2) (i 5)))) \
+ (2 A (id (i 2)) (x1 (i 2)) (x2 (i 2)) (l1 (l (i 2))) (l2 (l (i 2) (i 3)))) \
+ (10 B (id (i 10)) (y (i 0))) (11 B (id (i 11)) (y (i 1))) (12 B (id (i 12)) (y (i 2))) (13 B (id (i 13)) (y (i 3))) \
+ (14 B (id (i 14)) (y (i 4))) (15 B (id (i 15)) (y (i 5))) (16 B (id (i 16)) (y n))) \
+ (adj (0 e (params) (nbrs 10 11 12 13 14 15 16)) (1 e (params) (nbrs 16 15 14 13 12 11 10)) (2 e (params) (nbrs 12 12 13 11))) \
+ (starts (RA (params) (nbrs 0 1 2))) (rx))";
+
+/// Every ordered pair of tag-filter operators (one per priority class of
+/// `dynamically_required_property`: `=` > `one_of` > ordering > `!=`; `>=` is left out because of
+/// finding F-1) on the property `y` of the neighbour, each operand tag taken from {first, second}
+/// tagged property of the root vertex — so that the two filters refer to the same tag or to different
+/// tags, in both textual orders — behind a plain edge and inside a fold (imported tags).
+fn two_tag_cases() -> Vec<Case> {
+    let ops: [(&str, &str, bool); 6] =
+        [("=", "eq", false), ("one_of", "one_of", true), ("<", "lt", false), ("<=", "le", false), (">", "gt", false), ("!=", "neq", false)];
+    let (Some(schema_sexp), Some(data_sexp)) = (Sexp::parse(TT_SCHEMA), Sexp::parse(TT_DATA)) else { return vec![] };
+    let Some(schema) = load_schema(&schema_sexp) else { return vec![] };
+    let mut out = vec![];
+    for (g1, n1, list1) in ops {
+        for (g2, n2, list2) in ops {
+            for t1 in 1..=2 {
+                for t2 in 1..=2 {
+                    for folded in [false, true] {
+                        let prop = |list: bool, k: i32| format!("{}{k}", if list { "l" } else { "x" });
+                        let (p1, p2) = (prop(list1, t1), prop(list2, t2));
+                        let mut tagged = vec![p1.clone()];
+                        if p2 != p1 {
+                            tagged.push(p2.clone());
+                        }
+                        let tags: String = tagged.iter().map(|p| format!("{p} @tag(name: \"t{p}\") ")).collect();
+                        let edge = if folded { "e @fold" } else { "e" };
+                        let text = format!(
+                            "{{ RA {{ {tags}id @output(name: \"o0\") {edge} {{ y @filter(op: \"{g1}\", value: [\"%t{p1}\"]) @filter(op: \"{g2}\", value: [\"%t{p2}\"]) @output(name: \"o1\") }} }} }}"
+                        );
+                        let Ok(Ok(q)) = guarded(|| compile(&schema.real, &text)) else { continue };
+                        let ir = ir_to_sexp(&q.ir_query);
+                        let hx = Sexp::atom(hex(text.as_bytes()));
+                        let args = Sexp::call("args", vec![]);
+                        let same = if p1 == p2 { "same-tag" } else { "different-tags" };
+                        let tags_v = vec![
+                            "two-tag-filters".to_string(),
+                            "nt:two-tag-filters".to_string(),
+                            format!("two-tag:{n1}-then-{n2}:{same}"),
+                        ];
+                        out.push(Case {
+                            request: Sexp::call("hints", vec![schema_sexp.clone(), hx.clone(), ir.clone(), args.clone()]),
+                            tags: tags_v.clone(),
+                        });
+                        let five = vec![schema_sexp.clone(), data_sexp.clone(), hx, ir, args];
+                        let Ok(Some(Ok(l))) = guarded(|| load5(&five)) else { continue };
+                        if guarded(|| execute(Arc::new(l.p.adapter()), l.q.clone(), &l.args)).is_err() {
+                            continue;
+                        }
+                        let eids: Vec<Sexp> =
+                            direct_points(&l).keys().filter(|e| **e != 0).map(|e| Sexp::atom(e.to_string())).collect();
+                        let mut pa = five.clone();
+                        pa.push(Sexp::call("eids", eids));
+                        out.push(Case { request: Sexp::call("points", pa), tags: tags_v.clone() });
+                        out.push(Case { request: Sexp::call("prune-exec", five), tags: tags_v });
+                    }
+                }
+            }
+        }
+    }
+    out
+}
+
 /// What the oracle found for one execution.
 struct PruneVerdict {
     failures: Vec<(String, String)>,
@@ -1167,13 +1283,14 @@ impl Prop for C04 {
         "C04"
     }
     fn rule(&self) -> &'static str {
-        "the worlds of C01 plus tag-only query variants (see C05). Per accepted query one (hints <schema> <query> <ir> <args>) request: static candidates of every property, presence of a dynamic candidate, and mandatory edges (Eids) reported for EVERY Vid by the root ResolveInfo and the NeighborInfos reached from it by edges_with_name(..).destination() (model: Hints.walkInfos). Per accepted (query, dataset) whose plain run does not panic: one (points ... (eids ..)) request — the same report from the hint object of each resolution point that occurs in the run (ResolveInfo of resolve_starting_vertices, ResolveEdgeInfo::destination() of each resolve_neighbors call; model: VInfo.resolve / ofEdge / ofFold) — and one (prune-exec ...) request answered with the rows of the PLAIN run (model: rows of the Lean Interp under the Lean pruneAdapter, i.e. the open global theorem is tested on every case). A grid of (tag-cand <ctx|count> <op> <tag value|nonexistent> <initial>) requests ties candidateOfTag to compute_candidate_from_operation / resolve_fold_specific_field through the verif_dynamic hooks. ORACLE on the implementation: the PruningAdapter (table adapter that, at every resolve_starting_vertices / resolve_neighbors, drops destination vertices whose property values are outside statically_required_property(p) for any property p of the destination type, outside dynamically_required_property(p).resolve(..) for the context, or that lack — recursively through destination() look-ahead — a neighbour along an edge reported by mandatory_edges_with_name) must return exactly the rows of the plain adapter, as lists, in three modes (static+mandatory; +dynamic; +hints claimed for the Vid by look-ahead from the root); a panic inside hint resolution is a failure keyed by its site. Non-trivial (nt:<why>): the pruned run actually dropped a vertex (nt:dropped-static / -mandatory / -dynamic) or resolved a dynamic candidate (nt:dynamic-resolved)."
+        "the worlds of C01 plus tag-only query variants (see C05). Per accepted query one (hints <schema> <query> <ir> <args>) request: static candidates of every property, presence of a dynamic candidate, and mandatory edges (Eids) reported for EVERY Vid by the root ResolveInfo and the NeighborInfos reached from it by edges_with_name(..).destination() (model: Hints.walkInfos). Per accepted (query, dataset) whose plain run does not panic: one (points ... (eids ..)) request — the same report from the hint object of each resolution point that occurs in the run (ResolveInfo of resolve_starting_vertices, ResolveEdgeInfo::destination() of each resolve_neighbors call; model: VInfo.resolve / ofEdge / ofFold) — and one (prune-exec ...) request answered with the rows of the PLAIN run (model: rows of the Lean Interp under the Lean pruneAdapter, i.e. the open global theorem is tested on every case). A directed stream over a fixed small world (nt:two-tag-filters): every ordered pair of tag-filter operators of the priority classes = > one_of > ordering > != on ONE property, the two operands being the same tag or different tags in both textual orders, behind a plain edge and inside a fold; hints / points (which now report the chosen (property, operation, tag) of every dynamic candidate) / prune-exec requests. A grid of (tag-cand <ctx|count> <op> <tag value|nonexistent> <initial>) requests ties candidateOfTag to compute_candidate_from_operation / resolve_fold_specific_field through the verif_dynamic hooks. ORACLE on the implementation: the PruningAdapter (table adapter that, at every resolve_starting_vertices / resolve_neighbors, drops destination vertices whose property values are outside statically_required_property(p) for any property p of the destination type, outside dynamically_required_property(p).resolve(..) for the context, or that lack — recursively through destination() look-ahead — a neighbour along an edge reported by mandatory_edges_with_name) must return exactly the rows of the plain adapter, as lists, in three modes (static+mandatory; +dynamic; +hints claimed for the Vid by look-ahead from the root); a panic inside hint resolution is a failure keyed by its site. Non-trivial (nt:<why>): the pruned run actually dropped a vertex (nt:dropped-static / -mandatory / -dynamic) or resolved a dynamic candidate (nt:dynamic-resolved)."
     }
     fn generate(&self, tier: Tier, rng: &mut Rng) -> Vec<Case> {
         let (worlds, stats, variants) = hint_worlds(tier, rng);
         *self.stats.borrow_mut() = stats;
         *self.variants.borrow_mut() = variants;
         let mut out = tag_cand_cases(rng, if tier == Tier::Quick { 300 } else { 3000 });
+        out.extend(two_tag_cases());
         for w in &worlds {
             for q in w.accepted() {
                 let tags = feature_tags(&q.gq.features);
